@@ -36,7 +36,9 @@ LEVEL_TEXT = ('seeded exploration of call-signature sequences x decorator option
               'as real concurrent tasks under the seeded scheduler.')
 LEVEL_NOTE = 'trusted: simulator kernel and clock, the probe function as the specification of "what the function returns"'
 
-ALPHA = [1, {'f': '1.0'}, True, None, 'a', 'x', 2, {'t': [1]}, {'i': str(2 ** 53)}, {'i': str(2 ** 53 + 1)}, {'f': '9007199254740992.0'}, 0, {'f': '-0.0'}]
+ALPHA = [1, {'f': '1.0'}, True, None, 'a', 'x', 2, {'t': [1]}, {'i': str(2 ** 53)}, {'i': str(2 ** 53 + 1)}, {'f': '9007199254740992.0'}, 0, {'f': '-0.0'},
+         # text that spells another argument, or carries a separator a flattened key might use
+         '1', 'None', 'True', '1.0', 'a:b', 'b:c', ':', 'a,b', "('a',)"]
 KW = ['a', 'x', 'b']
 
 
